@@ -252,10 +252,12 @@ def s_addr(draw, doubles):
     hrp = draw(hrps)
     L = draw(st.sampled_from([20, 32]))
     return {'kind': 'addr', 'hrp': hrp, 'prog': draw(st.binary(min_size=L, max_size=L)).hex(), 'single': True, 'patterns': True,
-            'doubles': draw(st.lists(st.tuples(st.integers(0, 99), st.integers(0, 99), st.integers(0, 30), st.integers(0, 30)).map(list),
+            # one integer per sample (a 4-tuple of small integers costs four draws; 1,500 of them overflow Hypothesis' 8 kB buffer)
+            'doubles': draw(st.lists(st.integers(0, 100 * 100 * 31 * 31 - 1).map(lambda v: [v % 100, v // 100 % 100, v // 10000 % 31, v // 310000]),
                                      min_size=doubles, max_size=doubles)),
-            'multi': draw(st.lists(st.lists(st.tuples(st.integers(0, 99), st.integers(0, 30)).map(list), min_size=3, max_size=4),
-                                   min_size=doubles // 4, max_size=doubles // 4))}
+            'multi': draw(st.lists(st.integers(0, 3100 ** 4 * 2 - 1).map(
+                lambda v: [[v // 3100 ** k % 3100 % 100, v // 3100 ** k % 3100 // 100] for k in range(3 + v // 3100 ** 4)]),
+                min_size=doubles // 4, max_size=doubles // 4))}
 
 
 @st.composite
@@ -283,7 +285,7 @@ def t_raw5(ctx):
 
 
 def t_faults(ctx):
-    ctx.hyp(s_addr(ctx.n(600, 1500)), ctx.n(20, 100))
+    ctx.hyp(s_addr(ctx.n(600, 800)), ctx.n(20, 190))
 
 
 def t_codec_random(ctx):
